@@ -230,6 +230,7 @@ def runMonitor (cfg : Cfg) (tr : List Step) (m : String) : String :=
   let v : Option Bool :=
     if m == "c01-once" then some (Afkak.Monitor.C01.atMostOnce cfg tr)
     else if m == "c01-acked" then some (Afkak.Monitor.C01.successAcked cfg tr)
+    else if m == "c01-acks0" then some (Afkak.Monitor.C01.acks0 cfg tr)
     else if m == "c01-payloads" then some (Afkak.Monitor.C01.payloads cfg tr)
     else if m == "c01-resolved" then some (Afkak.Monitor.C01.resolvedFired cfg tr)
     else if m == "c09-order" then some (Afkak.Monitor.C09.order cfg tr)
